@@ -1251,3 +1251,28 @@ def distribution(cases, results):
                                                                       if c['k'] == 'calshare' and isinstance(r, dict) and r.get('nt'))
     return d
 # ================================================= end of the calshare addition ========================================
+
+
+# ================================================= translator tie of the array handling (aliasing) ====================
+# coq/gen/DetermGen.v is regenerated from $PSIAUDIO_REPO/psiaudio/stim.py on every run (translate/pydeterm2coq.py: a fail-closed
+# ALIASING translator - which array a statement hands on is a view of an existing storage, a fresh array, or an in-place write -
+# plus a self-test of the translation against the real methods on real arrays: values, np.shares_memory, flags.writeable, object
+# identity); coq/Determ/ProofsTie.v proves the regenerated definitions equal to the model of coq/Determ/Model.v (all repairs on),
+# and Props/C10.v restates C10_refines_pure / C10_cached_pure over programs run with them (C10_source_*).
+def translate(repo):
+    from translate import pydeterm2coq
+    return pydeterm2coq.hook(repo)
+
+
+TRUSTED = TRUSTED + ['translate/pydeterm2coq.py (fail-closed ast translator of the array handling of fast_cache\'s wrapper, FixedWaveform.next / '
+                     'reset, GateFactory.next, Transform.reset, ToneFactory.next / reset, SilenceFactory.next / reset to coq/gen/DetermGen.v; '
+                     'its IR is run by a small interpreter against the real code on every run) with its NumPy aliasing table, whose meaning is '
+                     'coq/Determ/TieLib.v: basic slicing -> a view; np.zeros / np.full / np.concatenate / .copy() / np.array -> a fresh writable '
+                     'array; np.asarray / np.ascontiguousarray on an ndarray -> the same object; slice assignment -> a write through the view; '
+                     'setflags(write=False) -> the storage is read-only; a fresh array that never leaves the function is carried by value; '
+                     'dict / tuple / sorted / isinstance of the memo wrapper as pycache / pyval / pyobj',
+                     'pinned, not translated (a change of their text breaks the tie): `samples = int(samples)`, the one-shot carrier call of '
+                     'ToneFactory.next and the arithmetic tail of tone() (a fresh array), `self.input_factory.next(samples)` / `.reset()` '
+                     '(dynamic dispatch, modelled by gen_onext / gen_oreset of Determ/ProofsTie.v), `result = f(*args, **kw)` (a memoised '
+                     'function builds arrays nobody else holds), the closure of fast_cache (cache = {}, kwd_marker = object(), @wraps(f)), '
+                     'the class headers deciding which reset() a GateFactory runs, `self.complete = False`']
